@@ -19,6 +19,7 @@ from pyPRISM.core.Space import Space
 
 from .. import refmodel as R
 from .. import gen as G
+from .. import tutorials as T
 
 PID = 'C05'
 RULE = ('cases = PRISM objects of rank 1-4 (domain length 32-256, random densities, diameters, kT, chain/cross omegas) whose totalCorr and directCorr '
@@ -293,6 +294,9 @@ MULTI = ('chi', 'spinodal_condition', 'solvation_potential')
 
 
 def cases(ctx):
+    for i, name in enumerate(T.NAMES):
+        if ctx.mine(i):
+            yield {'kind': 'tutorial', 'name': name}
     rng = ctx.rng('c05')
     n = ctx.budget(700, 12000)
     for it in range(n):
@@ -362,7 +366,50 @@ def restore(p):
         m.space = space
 
 
+def judge_solved(ctx, p, sp, res, rng):
+    _S['spec'] = sp
+    _S['pristine'] = capture(p)
+    # self-consistency identity: unnormalised S = (I - Omega C)^-1 Omega
+    ctx.hook('solved.S_identity')
+    restore(p)
+    _S['on'] = False
+    try:
+        S = np.asarray(pyPRISM.calculate.structure_factor(p, normalize=False).data)
+    finally:
+        _S['on'] = True
+    st = _S['pristine']
+    get = spaces(st, sp['dr'])
+    W, Ck = get('omega', 'k'), get('directCorr', 'k')
+    n = len(sp['types'])
+    ref = np.array([np.linalg.solve(np.eye(n) - W[l] @ Ck[l], W[l]) for l in range(sp['L'])])
+    resid = float(np.abs(res.fun).max())
+    tol = 1e4 * resid + 1e-9
+    e = float(np.abs(S - ref).max() / max(np.abs(ref).max(), 1e-300))
+    ctx.observe('S_identity/(1e4*residual)', e / tol)
+    if not e <= tol:
+        ctx.violation('calc:structure_factor-violates-self-consistency-identity', 'on a converged object S_unnormalised != (I - Omega C)^-1 Omega: rel err %.3g, solver residual %.3g' % (e, resid))
+    return run_calls(ctx, p, sp, rng)
+
+
+def run_tutorial(ctx, case):
+    """the maintainers' case studies: all calculate.* contracts on every solved object of the tutorial sweeps"""
+    rng = np.random.default_rng(0)
+
+    def on_step(sp, s, p, res, label):
+        ctx.hook('tutorial.step_judged')
+        judge_solved(ctx, p, sp, res, rng)
+        ctx.count('object', 'tutorial/%s' % case['name'])
+    _S['spec'] = None
+    nok, n = T.run(case['name'], on_step)
+    _S['spec'] = None
+    ctx.count('tutorial_steps', '%s: %d of %d solved' % (case['name'], nok, n))
+    if nok:
+        ctx.nontrivial(['tutorial', case['name']])
+
+
 def run_case(ctx, case):
+    if case['kind'] == 'tutorial':
+        return run_tutorial(ctx, case)
     rng = np.random.default_rng(case['seed'])
     if case['kind'] == 'solved':
         sp = G.easy_spec(rng, rank=int(case['rank']), L=128, dr=0.1, eta_max=0.2)
@@ -371,30 +418,9 @@ def run_case(ctx, case):
         res = G.solve(p, 'krylov', {'line_search': 'wolfe', 'fatol': 1e-10, 'maxiter': 150})
         if res is None or not res.success:
             raise __import__('pvmon').core.Skip('solve did not converge')
-        _S['spec'] = sp
-        _S['pristine'] = capture(p)
-        # self-consistency identity: unnormalised S = (I - Omega C)^-1 Omega
-        ctx.hook('solved.S_identity')
-        restore(p)
-        _S['on'] = False
-        try:
-            S = np.asarray(pyPRISM.calculate.structure_factor(p, normalize=False).data)
-        finally:
-            _S['on'] = True
-        st = _S['pristine']
-        get = spaces(st, sp['dr'])
-        W, Ck = get('omega', 'k'), get('directCorr', 'k')
-        n = len(sp['types'])
-        ref = np.array([np.linalg.solve(np.eye(n) - W[l] @ Ck[l], W[l]) for l in range(sp['L'])])
-        resid = float(np.abs(res.fun).max())
-        tol = 1e4 * resid + 1e-9
-        e = float(np.abs(S - ref).max() / max(np.abs(ref).max(), 1e-300))
-        ctx.observe('S_identity/(1e4*residual)', e / tol)
-        if not e <= tol:
-            ctx.violation('calc:structure_factor-violates-self-consistency-identity', 'on a converged object S_unnormalised != (I - Omega C)^-1 Omega: rel err %.3g, solver residual %.3g' % (e, resid))
-        done = run_calls(ctx, p, sp, rng)
+        done = judge_solved(ctx, p, sp, res, rng)
         ctx.nontrivial(case)
-        ctx.count('object', 'solved/rank%d' % n)
+        ctx.count('object', 'solved/rank%d' % len(sp['types']))
         return
     sp = hand_spec(rng, case)
     sp['labels'] = G.choose_labels(rng, sp['types'])
